@@ -231,7 +231,7 @@ def run_kani_jobs(ctx, harnesses):
             extra = {}
             for gen in gens:
                 extra.update(registry.GENERATORS[gen](extract.REPO, skip) if skip else registry.GENERATORS[gen](extract.REPO))
-            return extract.extract(vdir, mods, macos=vs.get("macos", False), big_arena=vs.get("big_arena", False), contracts=registry.contracts_for(hs), extra_files=extra, extra_cfgs=vs.get("cfgs", []))
+            return extract.extract(vdir, mods, macos=vs.get("macos", False), big_arena=vs.get("big_arena", False), contracts=registry.contracts_for(hs), extra_files=extra, extra_cfgs=vs.get("cfgs", []), arch=vs.get("arch"))
 
         log_, cfgs = do_extract()
         crate = os.path.join(vdir, "crate")
